@@ -253,6 +253,9 @@ func (v JV) Src() string {
 		if strings.HasPrefix(v.S, "go:") {
 			return "G_" + v.S[3:]
 		}
+		if strings.HasPrefix(v.S, "self:") { // histories: a field of the container itself (live Go memory)
+			return "G." + v.S[5:]
+		}
 	}
 	panic("m16: cannot spell " + v.K + "/" + v.S)
 }
